@@ -28,7 +28,7 @@ Record ostep := {
   o_idx : nat; o_start : Z; o_end : Z; o_res : result; o_payload : list Z; o_dl : Z; o_delay : option Z
 }.
 
-Definition ok_attempt : attempt := {| a_dur := 0; a_res := ROk |}.
+Definition ok_attempt : attempt := {| a_dur := 0; a_res := ROk; a_ignores_ctx := false |}.
 
 (* the observed timeline: attempt k starts when the previous one ended plus the delay that was logged for it *)
 Fixpoint rebuild (sc : scenario) (script : list attempt) (atts : list (list Z * Z)) (delays : list Z)
